@@ -14,7 +14,7 @@ SPICE = [
     # preformatted chunks: 4-space indented lines and fenced blocks
     "usage:\n    --filter <field>=<value>", "example\n\n    convert </dl></div><i> & .so x\n    'second", "text\n\n```\n<script>x</script>\n.de Q\n```\n\nafter",
 ]
-TITLES = ["options group", ".SH injected", "'title", "title\\fB", "C:\\dir", "<h1>title</h1>", "two\nlines", "two\nlines\nthree\n", "日本語"]
+TITLES = ["options group", "", ".SH injected", "'title", "title\\fB", "C:\\dir", "<h1>title</h1>", "two\nlines", "two\nlines\nthree\n", "日本語"]
 METAVARS = ["FILE", "<x>", "a.b", "'Q", ".M", "A B", "x\\y", "N", "KEY=VAL", "<>"]
 APPS = ["app", "my app", "tool-x", "a\\b", "App.Name"]
 
